@@ -24,13 +24,13 @@ pub fn exec(body: &str, emit: &mut dyn FnMut(&str)) {
     let mut cfg = Config::single();
     _ = cfg.set_hook(false).set_max_size(max);
     EventLoops::init(&cfg);
-    // the blocker: once it runs, the loop thread is busy for 120 ms
+    // the blocker: once it runs, the loop thread is busy for 400 ms
     let started = std::sync::Arc::new(std::sync::atomic::AtomicBool::new(false));
     let s2 = started.clone();
     let h = EventLoops::submit_task(None, move |_| {
         s2.store(true, std::sync::atomic::Ordering::SeqCst);
         let t = Instant::now();
-        while t.elapsed() < Duration::from_millis(120) { std::hint::spin_loop(); }
+        while t.elapsed() < Duration::from_millis(400) { std::hint::spin_loop(); }
         Some(0)
     }, None, Some(0));
     std::mem::forget(h);
